@@ -62,6 +62,17 @@ def run():
         events.append({"tid": tid, "a": enc(a), "b": enc(b), "d": enc_diff(d), "pjs": enc_js(to_plain(p))})
     pairs = corp.pairs(n_enum=500 if chk.quick else None, n_random=200 if chk.quick else 5000,
                        n_unrelated=40 if chk.quick else 1000, salt="c15")
+    # every intra-line source variant on the families whose first lines hold characters outside the Basic Multilingual
+    # Plane (positions count code points on the server, UTF-16 units in the browser), in one and in two cells
+    from . import concretize
+    for fam in (1, 2):
+        for v in (1, 5, 6, 7, 8, 9, 10, 11):
+            for two in (False, True):
+                cell = {"cid": 1, "fam": fam, "kind": "markdown", "src": 0, "outs": 0, "md": 0, "ec": 0, "att": 0}
+                cells_a = [cell] + ([dict(cell, cid=2)] if two else [])
+                cells_b = [dict(c, src=v if k == 0 else 11) for k, c in enumerate(cells_a)]
+                pairs.append(("astral-%d-%d-%d" % (fam, v, two), concretize.concrete({"minor": 5, "nbmd": 0, "cells": cells_a}),
+                              concretize.concrete({"minor": 5, "nbmd": 0, "cells": cells_b}), {"source": "astral"}))
     for name, a, b, info in pairs:
         d = diff_notebooks(a, b)
         p = patch_notebook(a, d)
